@@ -19,6 +19,7 @@ type replayCase struct {
 	Pattern string // regexp over the obligation name
 	Test    string // body of func TestPvcReplay(t *testing.T); must print "REPRODUCED: ..." when the misbehaviour shows
 	Imports []string
+	Race    bool // run the replay under the race detector; a reported race counts as reproduced
 }
 
 var replayCases []replayCase
@@ -72,7 +73,7 @@ func writeReplay(p *Prog, pd *PropDef, ob *Obligation, opts SolveOpts) (string, 
 			continue
 		}
 		src := buildReplayTest(rc)
-		out, repro := runReplayTest(p.RepoDir, src)
+		out, repro := runReplayTest(p.RepoDir, src, rc.Race)
 		rf.Replay = &ReplayOutcome{Case: rc.Pattern, Reproduced: repro, Output: tail(out, 4000), TestSource: src}
 		if repro {
 			found = true
@@ -118,7 +119,7 @@ func buildReplayTest(rc replayCase) string {
 }
 
 // runReplayTest injects the test into the package through an overlay (nothing is written to the repository).
-func runReplayTest(repo, src string) (string, bool) {
+func runReplayTest(repo, src string, race bool) (string, bool) {
 	dir, err := os.MkdirTemp("", "pvcreplay")
 	if err != nil {
 		return err.Error(), false
@@ -133,7 +134,12 @@ func runReplayTest(repo, src string) (string, bool) {
 	start := time.Now()
 	ctx, cancel := context.WithTimeout(context.Background(), 120*time.Second)
 	defer cancel()
-	cmd := exec.CommandContext(ctx, "go", "test", "-overlay", ovf, "-vet=off", "-count=1", "-timeout", "60s", "-run", "^TestPvcReplay$", "-v", ".")
+	args := []string{"test", "-overlay", ovf, "-vet=off", "-count=1", "-timeout", "60s", "-run", "^TestPvcReplay$", "-v"}
+	if race {
+		args = append(args, "-race")
+	}
+	args = append(args, ".")
+	cmd := exec.CommandContext(ctx, "go", args...)
 	cmd.Dir = repo
 	cmd.Env = append(os.Environ(), "GOFLAGS=-mod=mod", "GOPROXY=off", "GOSUMDB=off", "GOTOOLCHAIN=local")
 	var out bytes.Buffer
@@ -148,6 +154,9 @@ func runReplayTest(repo, src string) (string, bool) {
 		}
 	}
 	s := out.String()
+	if race && strings.Contains(s, "WARNING: DATA RACE") {
+		s += "\nREPRODUCED: the race detector reports a data race between concurrent executions (see output)\n"
+	}
 	return s, strings.Contains(s, "REPRODUCED:")
 }
 
